@@ -26,10 +26,10 @@ pub fn date_days_lt30(add: bool) {
     let cfg = blank_config();
     let date = any_date();
     let n: i64 = vany();
-    vassume(n >= 0 && n < 30);
+    vassume(n > -30 && n < 30);
     // result must stay inside years 1..9999
-    vassume(!(date.year() == 9999 && date.month() == 12 && add));
-    vassume(!(date.year() == 1 && date.month() == 1 && !add));
+    vassume(!(date.year() == 9999 && date.month() == 12));
+    vassume(!(date.year() == 1 && date.month() == 1));
     let left = DateItem(date, tz0());
     let right = DurationItem(Duration::days(n));
     let op = if add { OperationType::Add } else { OperationType::Sub };
